@@ -168,6 +168,42 @@ def decls(header, abi):
 
 
 
+def e2e_result_prog(seed, i):
+    """Result<T, E> returns whose arms differ in size and alignment in every direction (the union is padded to the stricter alignment and the
+    flag follows it): byte structs of odd sizes next to 2-, 4- and 8-byte aligned arms, both arms taken, for the real-wasm32 leg"""
+    rng = random.Random("c10e2e/%s/%s" % (seed, i))
+    prog = spec.Program("p%d" % i)
+    mod = spec.Module("ffi")
+    prog.modules.append(mod)
+    op = spec.Opaque("Hub")
+    op.methods.append(spec.Method("make", None, [("seed", ("prim", "u32"))], ("obox", "Hub", False)))
+    en = spec.Enum("En0", [("Va", None), ("Vb", 5), ("Vc", -2)])
+    fam = []
+    for n in (1, 2, 3, 5, 6, 7):
+        fam.append(spec.Struct("B%d" % n, [("f%d" % k, ("prim", "u8")) for k in range(n)]))
+    for n in (1, 3):
+        fam.append(spec.Struct("H%d" % n, [("f%d" % k, ("prim", rng.choice(["u16", "i16"]))) for k in range(n)]))
+    fam.append(spec.Struct("W1", [("f0", ("prim", "u32"))]))
+    fam.append(spec.Struct("W3", [("f0", ("prim", "f32")), ("f1", ("prim", "i32")), ("f2", ("prim", "u32"))]))
+    fam.append(spec.Struct("D1", [("f0", ("prim", rng.choice(["u64", "f64", "i64"])))]))
+    fam.append(spec.Struct("M1", [("f0", ("prim", "u8")), ("f1", ("prim", "u64"))]))
+    fam.append(spec.Struct("M2", [("f0", ("prim", "u16")), ("f1", ("prim", "u8"))]))
+    for t in fam + [en]:
+        t.attrs.append("#[diplomat::attr(auto, error)]")
+    arms = [("struct", t.name) for t in fam] + [("enum", "En0"), ("prim", "u8"), ("prim", "u16"), ("prim", "u64"), ("prim", "bool"), ("obox", "Hub", False)]
+    errs = [a for a in arms if a[0] in ("struct", "enum")]
+    for k in range(12):
+        ok, err = rng.choice(arms), rng.choice(errs)
+        op.methods.append(spec.Method("r%d" % k, ("ref", None), [("n", ("prim", "u8"))], ("result", ok, err, "std")))
+    for k in range(3):
+        op.methods.append(spec.Method("o%d" % k, ("ref", None), [], ("opt", rng.choice([a for a in arms if a[0] != "obox"]), "std")))
+    mod.items = fam + [en, op]
+    for t_ in mod.items:
+        for m_ in t_.methods:
+            m_.owner = t_
+    return prog
+
+
 # ------------------------------------------------------------------------------------------------ JS leg
 # "everywhere" includes the managed side: the generated JS must write is_ok = 1 exactly for a present value
 # (also for payloads that are falsy in JS: 0, 0.0, false, 0n) and read it back the same way. The machinery is C08's
@@ -297,6 +333,9 @@ def main(tier, seed):
         return any(("GUARD" in x or "RangeError" in x or "THREW" in x) for x in (r.get("reports") or [])) or bool(d and "THREW" in str(d[2]))
     e2e = api.js_e2e_leg(chk, seed + 10800, 400 if thorough else 48, "c10e2e", profile=dict(max_params=3), only=only, label="js-e2e")
     stats.update({"js_e2e_" + k: v for k, v in e2e.items()})
+    e2r = api.js_e2e_leg(chk, seed + 10900, 96 if thorough else 16, "c10e2r", ncalls=60, only=only, label="js-e2e-results", prepared=lambda i: e2e_result_prog(seed, i))
+    stats.update({"js_e2e_results_" + k: v for k, v in e2r.items()})
+    stats["js_e2e_calls"] += e2r["calls"]
     chk.evaluations = stats["calls"] + stats["size_probes"] + stats["declaration_pairs_compared"] + stats["js_option_fields_written"] + stats["js_option_params"] + stats["js_e2e_calls"]
     chk.distinct = kinds
     chk.rule = ("per program: 10-16 Option pairs over {13 primitives, enum, struct, struct with DiplomatOption fields} in parameter and return position and "
